@@ -68,6 +68,17 @@ func init() {
 		for i := 0; i < n; i++ {
 			r := root.Fork(uint64(i))
 			var c c02Case
+			if i == 0 {
+				// one long run: a limit in the thousands is a limit like any other (Done flips at the limit-th match)
+				c.K = "seq"
+				c.Fs = []common.JFilter{{Kinds: common.Ptr([]int64{1}), Limit: common.Ptr(int64(5003))}}
+				for j := 0; j < 5006; j++ {
+					c.Es = append(c.Es, common.JEvent{ID: "i1", PK: "pa", TS: int64(j % 7), Kind: 1, Tags: [][]string{}})
+				}
+				c02Run(&c)
+				out.Emit(c)
+				continue
+			}
 			if i%10 < 7 {
 				c.K = "match"
 				e := u.Event(r, -1)
